@@ -265,7 +265,7 @@ def _synthetic(vals, nf=1):
             'gain? <exists> \nxmin = 0 \nxmax = 1 \npoints: size = 2 \npoints [1]:\n    number = 0.25 \n    value = 7 \npoints [2]:\n    number = ' + t + ' \n    value = ' + g + ' \n')
 
 
-SYN = [("0.5", "98.5", "50", "7", "60.25"), ("0.30000000000000004", "1e-05", "2519.3075148880134", "0", "1.2345678901234567e-05"), ("0.75", "-3.5", "75", "7.25", "123456789")]
+SYN = [("0.5", "98.5", "50", "7", "60.25"), ("0.30000000000000004", "1e-05", "2519.3075148880134", "0", "1.2345678901234567e-05"), ("0.75", "-3.5", "75", "7.25", "123456789"), ("0.625", "3e-17", "5e-324", "-2.5e-13", "1e-300")]
 
 
 def ob_klatt_synthetic_concrete():
@@ -372,6 +372,78 @@ def ob_points_concrete():
     return Ob("pointobject-files-concrete", I("c", "p"), check, kind="smt", smt=run, timeout=300, funcs=FUNCS[4:6], bounds="concrete cross-check: 3 object classes x point lists with 0..4 points (integers, 17-digit decimals, exponents, extremes)")
 
 
+
+# ---- writer side: the only place where Klattgrid.save may replace a number token ---------
+def _clean_zero_smt():
+    """the `except ValueError:` arm of _cleanNumericValues (a token that is not an int literal),
+    sliced from the current source; `tail` stands for a token denoting the binary64 number x.
+    Claim: the token that is written denotes x (it is the token itself, or "0" only if x == 0)."""
+    import ast
+    import z3
+    from engine import ksmt
+    from harness.fp_kernels import _solve
+
+    fdef = ksmt.func_ast(kgc._cleanNumericValues)
+    arm = None
+    for n in ast.walk(fdef):
+        if isinstance(n, ast.Try) and any("int(tail)" in ast.unparse(st) for st in n.body):
+            for h in n.handlers:
+                if h.type is not None and "ValueError" in ast.unparse(h.type):
+                    arm = h
+    if arm is None:
+        raise ksmt.AnchorMissing("`except ValueError:` arm after `str(int(tail))` in _cleanNumericValues")
+    x = z3.FP("x", ksmt.F64)
+
+    def make_env():
+        env = dict(kgc._cleanNumericValues.__globals__)
+        env.update({"tail": x, "head": "value", "row": "value = <tok>"})
+        return env
+
+    assume = [z3.Not(z3.fpIsNaN(x)), z3.Not(z3.fpIsInf(x))]
+    claims = []
+    for pc, env, oc in ksmt.explore(arm.body, make_env):
+        if oc[0] == "raise":
+            claims.append((pc, False))  # caught by the outer handler: the row is written unchanged
+            continue
+        if oc[0] != "fall":
+            raise ksmt.Unsupported("outcome %r in the float arm of _cleanNumericValues" % (oc[0],))
+        t = env.get("tail")
+        while isinstance(t, ksmt.Fmt) and t.template in ("%s", "repr") and len(t.args) == 1:
+            t = t.args[0]
+        if t is x:
+            claims.append((pc, False))
+        elif isinstance(t, str):
+            try:
+                c = float(t)
+            except ValueError:
+                claims.append((pc, True))
+                continue
+            claims.append((pc, z3.Not(z3.fpEQ(x, ksmt.fpv(c)))))
+        else:
+            raise ksmt.Unsupported("token rewritten to %r in _cleanNumericValues" % (t,))
+    return _solve(claims, {"x": x}, assume, 120)
+
+
+def _clean_zero_replay(x):
+    out = kgc._cleanNumericValues("    number = 0.5\n    value = %r" % (x,))
+    rows = out.split("\n")
+    if len(rows) != 2 or "=" not in rows[1]:
+        return "row structure changed: %r" % (out,)
+    tok = rows[1].split("=")[1].strip()
+    try:
+        v = float(tok)
+    except ValueError:
+        return "value %r written as %r" % (x, tok)
+    if v != x:
+        return "value %r written as %r" % (x, tok)
+    return True
+
+
+def ob_clean_zero():
+    from harness.fp_kernels import _guard
+
+    return Ob("klattgrid-clean-token-fp", F("x"), _clean_zero_replay, kind="smt", smt=_guard(_clean_zero_smt), timeout=300, funcs=["praatio.data_classes.klattgrid._cleanNumericValues"], bounds="all finite binary64 x: the float arm of _cleanNumericValues (token is not an int literal) writes a token denoting x; QF_FP, z3 + cvc5")
+
 def obligations(tier):
     obs = []
     if tier == "quick":
@@ -387,6 +459,7 @@ def obligations(tier):
         for n in (0, 1, 2, 3):
             obs.append(ob_modify(n, 1200))
         obs.append(ob_next_value(4, 1800))
+    obs.append(ob_clean_zero())
     obs.append(ob_klatt_concrete())
     obs.append(ob_klatt_synthetic_concrete())
     obs.append(ob_points_concrete())
